@@ -135,7 +135,7 @@ def check(ctx):
         "more eliminated variables than rows, cancelling coefficients, infeasible systems) and on composition/quotient/merge/"
         "rename/refines of generated contract pairs: the exception type is classified and every operand is snapshotted before "
         "and compared after a failing call. non-trivial = the call raised or the entry was faulted; distinct by fault / input")
-    proved = ctx.prove("props/C14.v", ["proofs/JsonFacts.v", "proofs/TacticsFacts.v", "proofs/AlgebraSound.v"])
+    proved = ctx.prove("props/C14.v", ["proofs/JsonFacts.v", "proofs/TacticsFacts.v", "proofs/AlgebraSound.v", "proofs/ParseAllFacts.v"])
     ctx.build(["model/Json.vo"])
     rng = random.Random(ctx.seed + 14)
     # ---- (i) dictionaries and files
@@ -218,10 +218,31 @@ def check(ctx):
                 ok2, _, _ = pp.observe(lambda: (k1.copy(), k2.copy(), k1.to_machine_dict()))
                 if ok2 != "ok" and pp.is_feasible(c1["a"] + c1["g"]) and pp.is_feasible(c2["a"] + c2["g"]):
                     ctx.violation(f"ops:operand_unusable_after_error:{name}", "an operand is unusable after a failing call", info)
+    # constraint strings whose constant arithmetic divides by zero: malformed strings, to be reported as syntax errors
+    from pacti.utils import errors as perr
+    for k in range(20 if ctx.quick else 200):
+        den = rng.choice(["0", "(1-1)", "(2*0)", "0.0", "(3-2-1)", "0e0"])
+        num = rng.choice(["1", "2.5", "(1+1)"])
+        shape = rng.choice(["({n}/{d})x <= 1", "x + ({n}/{d})y <= 3", "2x <= ({n}/{d})", "({n}/{d})|x| <= 4", "|x| + ({n}/{d})(x + y) <= 4",
+                            "x <= 1 + ({n}/{d})", "({n}/{d}/2)x = 1"])
+        text = shape.format(n=num, d=den)
+        calls = [("from_strings", lambda: PolyhedralIoContract.from_strings(input_vars=["x"], output_vars=["y"], assumptions=[text], guarantees=[])),
+                 ("from_strings_g", lambda: PolyhedralIoContract.from_strings(input_vars=["x"], output_vars=["y"], assumptions=[], guarantees=[text]))]
+        for name, thunk in calls:
+            try:
+                thunk()
+                out = "ok"
+            except (perr.PolyhedralSyntaxException, perr.PolyhedralSyntaxConvexException):
+                out = "SyntaxError"
+            except Exception as e:  # noqa: BLE001
+                out = "ESC:" + type(e).__name__
+            ophist[f"divzero_string:{out}"] = ophist.get(f"divzero_string:{out}", 0) + 1
+            if out != "SyntaxError":
+                ctx.violation(f"ops:escape:{name}:{out[4:] if out.startswith('ESC:') else 'accepted'}",
+                              "a constraint string dividing by zero was not reported as a syntax error", {"string": text, "outcome": out})
     ctx.notes["operation_outcomes"] = ophist
     ctx.count(nfaults + nchecks + sum(ophist.values()), nfaults + len(ophist))
     ctx.sample({"fault_example": hist, "operation_outcomes": dict(list(ophist.items())[:12])})
     pp.CERTS.clear()
     ctx.assumptions += ["integer literals beyond the double range (>= 2^1024) and unknown extra keys in a string-representation "
-                        "dictionary are outside the enumerated faults (both still escape: OverflowError / TypeError; see DESIGN 5)",
-                        "division by zero inside constant arithmetic of a constraint string raises ZeroDivisionError (DESIGN 5)"]
+                        "dictionary are outside the enumerated faults (both still escape: OverflowError / TypeError; see DESIGN 5)"]
